@@ -102,11 +102,12 @@ class Python(object):
             try:
                 if "log" in data:
                     logger.main_log.write(**data.log)
-                elif "out" in data:
-                    self.response = data.out
-                    self.done.go()
                 elif "err" in data:
                     self.error = data.err
+                    self.done.go()
+                else:
+                    # EVERY OTHER REPLY IS A RESULT, INCLUDING 0, false, null AND EMPTY VALUES
+                    self.response = data.out
                     self.done.go()
             except Exception as cause:
                 logger.error("unexpected problem", cause=cause)
